@@ -1,6 +1,7 @@
 import PokerVerif.Lemmas.TBBasic
 import PokerVerif.Lemmas.SMBasic
 import PokerVerif.Lemmas.TBSeatsRun
+import PokerVerif.Lemmas.TBAgree
 import PokerVerif.Props.C07
 import PokerVerif.Props.C01
 /-!
@@ -52,30 +53,6 @@ theorem C03_sm_atomic (st : State) :
   · intro id b; unfold setChips; split
     · intro _; rfl
     · intro h; exact absurd rfl h
-
-theorem clearSeats_other (s : Seats) (ks : List Int) (j : Int) (h : j ∉ ks) : clearSeats s ks j = s j := by
-  induction ks generalizing s with
-  | nil => rfl
-  | cons k t ih =>
-    simp only [clearSeats]
-    rw [ih _ (fun hm => h (List.mem_cons_of_mem _ hm))]
-    unfold setSeat
-    have : j ≠ k := fun e => h (by rw [e]; exact List.mem_cons_self)
-    simp [this]
-
-theorem clearSeats_mem (s : Seats) (ks : List Int) (j : Int) (h : j ∈ ks) : clearSeats s ks j = none := by
-  induction ks generalizing s with
-  | nil => simp at h
-  | cons k t ih =>
-    simp only [clearSeats]
-    by_cases hj : j ∈ t
-    · exact ih _ hj
-    · have hk : j = k := by
-        rcases List.mem_cons.mp h with h1 | h1
-        · exact h1
-        · exact absurd h1 hj
-      rw [clearSeats_other _ _ _ hj]
-      unfold setSeat; simp [hk]
 
 /-- **C03 — a seat vacated by a departure is empty again** (and no other seat is touched). -/
 theorem C03_vacated (st : State) (ids : List Nat) (hok : (remove st ids).2 = .ok) :
@@ -191,6 +168,30 @@ the players that stay) and the player list describe the same seating again — e
 sitting there, every listed player's seat names him, every other entry is `-1` — with one entry per seat. -/
 theorem C03_leave_keeps_bookkeeping (s : State) (ids : List Nat) (h : Booked s) : Booked (batchRemove s ids).1 :=
   batchRemove_booked s ids h
+
+/-- **C03 — a departure keeps seat manager and table in agreement**: if before a `PlayersLeave` the seat map, the player
+list and the seat manager name the same occupant for every seat (`Agree`) and the table's own bookkeeping is consistent
+(`Booked`), they do so afterwards — whether the call succeeds or is refused (the index-out-of-range panics of
+`calcLeavePlayers` are the excluded case). -/
+theorem C03_leave_keeps_agreement (s : State) (ids : List Nat) (hb : Booked s) (ha : Agree s)
+    (hnp : (batchRemove s ids).2 ≠ .panic) : Booked (batchRemove s ids).1 ∧ Agree (batchRemove s ids).1 :=
+  ⟨batchRemove_booked s ids hb, batchRemove_agree s ids hb ha hnp⟩
+
+/-- **C03 — everything but arrivals and departures leaves the occupants alone**: sit-ins, top-ups, settlement signals, a
+hand opening (positions drawn or rotated), settlement and the continue step change neither the listed ids, nor the seat
+map, nor who the seat manager holds where. -/
+theorem C03_quiet_operations (s : State) :
+    (∀ id, Quiet (join s id).1 s ∧ SeatsEq (join s id).1 s) ∧
+    (∀ id c, Quiet (redeem s id c).1 s ∧ SeatsEq (redeem s id c).1 s) ∧
+    (∀ id, Quiet (finish s id).1 s ∧ SeatsEq (finish s id).1 s) ∧
+    (∀ ch ok, Quiet (gateFire s ch ok).1 s ∧ SeatsEq (gateFire s ch ok).1 s) ∧
+    (∀ r, Quiet (settle s r).1 s ∧ SeatsEq (settle s r).1 s) ∧
+    (∀ e, Quiet (continueGame s e).1 s ∧ SeatsEq (continueGame s e).1 s) ∧
+    (Quiet (autoJoinStale s) s ∧ SeatsEq (autoJoinStale s) s) :=
+  ⟨fun id => ⟨q_join s id, seq_join s id⟩, fun id c => ⟨q_redeem s id c, seq_redeem s id c⟩,
+   fun id => ⟨q_finish s id, seq_finish s id⟩, fun ch ok => ⟨q_gateFire s ch ok, seq_gateFire s ch ok⟩,
+   fun r => ⟨q_settle s r, seq_settle s r⟩, fun e => ⟨q_continueGame s e, seq_continueGame s e⟩,
+   ⟨q_autoJoinStale s, seq_autoJoinStale s⟩⟩
 
 /-- **C03 (partial) — the seat bookkeeping of the table holds in every reachable state**: for every table, every history
 of every length (arrivals single and in batches, top-ups, departures, hands opened, settled and continued, pauses, …),
